@@ -20,9 +20,10 @@ GATES = ("nontrivial", "runs.globalized", "runs.deriv_check", "runs.scaled", "fi
 
 
 def generate(rng, seed, index, tier):
-    fam = str(rng.choice(["qp", "nlp", "degenerate", "domain", "infeasible"], p=[0.3, 0.3, 0.05, 0.3, 0.05]))
+    fam = str(rng.choice(["qp", "nlp", "degenerate", "domain", "infeasible", "saddle"], p=[0.25, 0.25, 0.05, 0.25, 0.05, 0.15]))
     spec, x0, y0 = gen.gen_problem(rng, fam, fixed_prob=0.4)
-    kw = gen.gen_params(rng, spec, x0, y0, p_knob=0.5, reporting=False)
+    x0, y0, sform = gen.start_forms(rng, spec, x0, y0, p=0.12)
+    kw = gen.gen_params(rng, spec, x0, y0, p_knob=0.5, reporting=False, numeric=0.2)
     if rng.random() < 0.25:
         kw["newton_type"] = "Globalized"
     if rng.random() < 0.3:
@@ -31,7 +32,7 @@ def generate(rng, seed, index, tier):
         kw["deriv_check"] = str(rng.choice(["CheckFirst", "CheckSecond", "CheckAll"]))
     kw["iteration_limit"] = int(rng.choice([10, 40, 150], p=[0.3, 0.5, 0.2]))
     kw["display_interval"] = float(rng.choice([0.0, 0.1, 1e18]))
-    return gen.base_world(seed, ID, index, spec, x0, y0, kw, clock=gen.gen_clock(rng, n=600), obs=gen.gen_obs(rng), case={"faulted": bool(rng.random() < 0.4), "pts_seed": int(rng.integers(0, 2**31))})
+    return gen.base_world(seed, ID, index, spec, x0, y0, kw, clock=gen.gen_clock(rng, n=600), obs=gen.gen_obs(rng), case={"faulted": bool(rng.random() < 0.4), "pts_seed": int(rng.integers(0, 2**31))}, start_form=sform)
 
 
 def _nontrivial(ex, bump):
